@@ -22,7 +22,9 @@ use std::cell::RefCell;
 use std::panic::{catch_unwind, AssertUnwindSafe};
 
 #[derive(Default)]
-struct Shared { log: Vec<String>, slog: Vec<String>, invocations: usize, fail_at: Option<usize>, bad: Vec<String>, keep: Vec<*mut HData> }
+struct Shared { log: Vec<String>, slog: Vec<String>, invocations: usize, fail_at: Option<usize>, bad: Vec<String>, keep: Vec<*mut HData>,
+    /// a failing setter whose error was deliberately NOT collected (odd handler indices): the next failure must overwrite it
+    untaken: bool }
 struct HData { idx: usize, ops: String, sh: *const RefCell<Shared> }
 #[repr(C)]
 struct RawStr { data: *const c_char, len: size_t }
@@ -117,9 +119,11 @@ unsafe extern "C" fn c_el(el: *mut Element, ud: *mut c_void) -> RewriterDirectiv
             "rm" => { unsafe { lol_html_element_remove(el) }; true }
             "rk" => { unsafe { lol_html_element_remove_and_keep_content(el) }; true }
             "sa" => { let (n, v) = arg.split_once(':').unwrap(); let (n, v) = (unhex(n), unhex(v)); let ((a, b), (c, d)) = (p(&n), p(&v));
-                      let r = unsafe { lol_html_element_set_attribute(el, a, b, c, d) }; if r != 0 { let _ = take_str(lol_html_take_last_error()); } r == 0 }
+                      let r = unsafe { lol_html_element_set_attribute(el, a, b, c, d) };
+                      if r != 0 { s.borrow_mut().untaken = true; } r == 0 }      // the error of a failing set_attribute is never collected here
             "ra" => { let n = unhex(arg); let (a, b) = p(&n); unsafe { lol_html_element_remove_attribute(el, a, b) }; true }
-            "tn" => { let n = unhex(arg); let (a, b) = p(&n); let r = unsafe { lol_html_element_tag_name_set(el, a, b) }; if r != 0 { let _ = take_str(lol_html_take_last_error()); } r == 0 }
+            "tn" => { let n = unhex(arg); let (a, b) = p(&n); let r = unsafe { lol_html_element_tag_name_set(el, a, b) };
+                      if r != 0 { if (h.idx + loc.start) % 2 == 0 { let _ = take_str(lol_html_take_last_error()); } else { s.borrow_mut().untaken = true; } } r == 0 }
             "oe" => {
                 let d = Box::into_raw(Box::new(HData { idx: loc.start, ops: arg[1..arg.len() - 1].to_string(), sh: h.sh }));
                 s.borrow_mut().keep.push(d);
@@ -299,7 +303,9 @@ pub fn run_case(line: &str) {
                     Err(_) => { shared.borrow_mut().bad.push(format!("call {k} unwound across the C boundary")); "panic:unwound".to_string() }
                     Ok(rc) => {
                         let err: Option<Vec<u8>> = take_str(lol_html_take_last_error());
-                        if rc == 0 { if err.is_some() { shared.borrow_mut().bad.push(format!("call {k} returned 0 but left a last-error string")); } "ok".to_string() }
+                        if std::env::var("LOLV_DEBUG").is_ok() { eprintln!("call {k} rc={rc} err={:?}", err.as_ref().map(|e| String::from_utf8_lossy(e).into_owned())); }
+                        let untaken = std::mem::take(&mut shared.borrow_mut().untaken);
+                        if rc == 0 { if err.is_some() && !untaken { shared.borrow_mut().bad.push(format!("call {k} returned 0 but left a last-error string")); } "ok".to_string() }
                         else {
                             if rc != -1 { shared.borrow_mut().bad.push(format!("call {k} returned {rc}")); }
                             match err { None => { shared.borrow_mut().bad.push(format!("call {k} failed without a last-error string")); "err:none".into() }
